@@ -110,6 +110,11 @@ vp_lb_refs(void)
 /* ---- whole-API scenarios on the REAL functions (no contract enforced) ------------
  * lc_objs(): the objects only (list + 4 items + outsider, nodes inactive as after
  * NNI_LIST_NODE_INIT); everything else is done by the real code. */
+struct lc_item {
+	uint64_t      w0, w1;
+	nni_list_node node;
+	uint64_t      w2, w3;
+};
 static size_t
 lc_objs(void)
 {
@@ -118,14 +123,23 @@ lc_objs(void)
 		off = LC_MAXOFF;
 	}
 #ifdef LC_FIXOFF
-	off = LC_FIXOFF; /* scenario with a constant member offset (the symbolic offset is the subject of the b_* units) */
+	off = offsetof(struct lc_item, node); /* == LC_FIXOFF; scenario with a constant member offset (the symbolic offset is the subject of the b_* units) */
 #endif
 	g_l     = (nni_list *) VP_NEWBYTES(sizeof(nni_list));
+#ifdef LC_FIXOFF
+	/* typed items (payload words around the node) so that link loads are field reads */
+	g_it[0] = VP_NEWBYTES(sizeof(struct lc_item));
+	g_it[1] = VP_NEWBYTES(sizeof(struct lc_item));
+	g_it[2] = VP_NEWBYTES(sizeof(struct lc_item));
+	g_it[3] = VP_NEWBYTES(sizeof(struct lc_item));
+	g_x     = VP_NEWBYTES(sizeof(struct lc_item));
+#else
 	g_it[0] = VP_NEWBYTES(LC_ITEMSZ);
 	g_it[1] = VP_NEWBYTES(LC_ITEMSZ);
 	g_it[2] = VP_NEWBYTES(LC_ITEMSZ);
 	g_it[3] = VP_NEWBYTES(LC_ITEMSZ);
 	g_x     = VP_NEWBYTES(LC_ITEMSZ);
+#endif
 	g_l->ll_offset = off; /* only so that LC_NODE below is defined; init_offset sets it again */
 	for (size_t i = 0; i < 4; i++) {
 		NNI_LIST_NODE_INIT(LC_NODE(g_l, g_it[i]));
